@@ -301,4 +301,56 @@ theorem eraseKvs_fixFields : ∀ (kvs : EKvs) (fs : Fields),
     simp [fixFields, eraseKvs, erase_fix e, eraseKvs_fixFields r fs]
 end
 
+/-! ### `encode` output is already normalised -/
+mutual
+theorem normJ_encode : ∀ (e : Exp), normJ (encode e) = encode e
+  | .lit l => by simp [encode, normJ, encLit_idem]
+  | .arr xs => by simp [encode, normJ, normJList_encodeList xs]
+  | .map _ kvs => by simp [encode, normJ, normJKvs_encodeKvs kvs]
+theorem normJList_encodeList : ∀ (xs : EList), normJList (encodeList xs) = encodeList xs
+  | .nil => by simp [encodeList, normJList]
+  | .cons e r => by simp [encodeList, normJList, normJ_encode e, normJList_encodeList r]
+theorem normJKvs_encodeKvs : ∀ (kvs : EKvs), normJKvs (encodeKvs kvs) = encodeKvs kvs
+  | .nil => by simp [encodeKvs, normJKvs]
+  | .cons k e r => by simp [encodeKvs, normJKvs, normJ_encode e, normJKvs_encodeKvs r]
+end
+
+mutual
+theorem plainMaps_erase : ∀ (e : Exp), plainMaps (erase e) = true
+  | .lit _ => by simp [erase, plainMaps]
+  | .arr xs => by simp [erase, plainMaps, plainMapsList_erase xs]
+  | .map _ kvs => by simp [erase, plainMaps, plainMapsKvs_erase kvs]
+theorem plainMapsList_erase : ∀ (xs : EList), plainMapsList (eraseList xs) = true
+  | .nil => by simp [eraseList, plainMapsList]
+  | .cons e r => by simp [eraseList, plainMapsList, plainMaps_erase e, plainMapsList_erase r]
+theorem plainMapsKvs_erase : ∀ (kvs : EKvs), plainMapsKvs (eraseKvs kvs) = true
+  | .nil => by simp [eraseKvs, plainMapsKvs]
+  | .cons k e r => by simp [eraseKvs, plainMapsKvs, plainMaps_erase e, plainMapsKvs_erase r]
+end
+
+theorem erase_erase (e : Exp) : erase (erase e) = erase e :=
+  erase_of_plain _ (plainMaps_erase e)
+
+/-! ### call level: unfolding one parameter -/
+theorem dataOf_cons (p : Str) (a : Arg) (bs : List (Str × Arg)) :
+    dataOf ((p, a) :: bs) =
+      { args := (p, encodeArg a) :: (dataOf bs).args,
+        splitargs := if a.isSplit = true then p :: (dataOf bs).splitargs
+                     else (dataOf bs).splitargs } := by
+  by_cases h : a.isSplit = true
+  · simp only [dataOf, List.map_cons, List.filter_cons, h, if_true]
+  · simp only [dataOf, List.map_cons, List.filter_cons, h, if_false, Bool.false_eq_true]
+
+theorem canonData_cons (p : Str) (t : TypeId) (ps : Sig) (d : Data) :
+    canonData ((p, t) :: ps) d =
+      { args := (p, if d.args.any (fun q => q.1 = p) = true then
+                      canonArg (d.splitargs.contains p) (lookupArg d.args p)
+                    else .lit .null) :: (canonData ps d).args,
+        splitargs := if (d.args.any (fun q => q.1 = p) && d.splitargs.contains p) = true
+                     then p :: (canonData ps d).splitargs
+                     else (canonData ps d).splitargs } := by
+  by_cases h : (d.args.any (fun q => q.1 = p) && d.splitargs.contains p) = true
+  · simp only [canonData, List.map_cons, List.filter_cons, h, if_true]
+  · simp only [canonData, List.map_cons, List.filter_cons, h, if_false, Bool.false_eq_true]
+
 end Martian.Invocation
